@@ -551,7 +551,9 @@ class Project(MessageHandler):
         # Primary: priority (desc), Secondary: pathcriticalness (desc), Tertiary: seqno (asc)
         # Note: attributes might return None, need safe access for sorting
         def sort_key(t: Any) -> tuple[int, float, int]:
-            prio = t.get("priority", scIdx) or 500
+            prio = t.get("priority", scIdx)
+            if prio is None:
+                prio = 500  # (an explicit 'priority 0' is the lowest priority, not the default)
             crit = t.get("pathcriticalness", scIdx) or 0.0
             seq = t.get("seqno") or 0
             return (-prio, -crit, seq)
